@@ -56,6 +56,9 @@ CHECKS = {
  "C18": ("fault_enumeration", "bit-flip enumeration on the real ECCEncoder -> flip mask -> ECCDecoder chain with oracles from the statement",
          "Widths 1..128; data exhaustive for k <= 8, otherwise zero/ones/walking-one/random; every single flip position incl. the parity bit (all widths in thorough, 54 widths fully swept in quick), every double flip for code words up to 41 bits and sampled pairs (always incl. parity-bit pairs) above; enable=0 pass-through.",
          "trusted: simulator Evaluator driven directly (combinational design asserted), oracle in props/c18.py", "4 C18"),
+ "C05": ("exploration", "handshake-log comparison across domains under a PRNG edge scheduler with coinciding edges and per-bit metastability injection at every MultiReg; membership monitor for the bus synchroniser",
+         "AsyncFIFO / ClockDomainCrossing (depths 4/8/16, buffered or not, common reset with pulses), AXILiteClockDomainCrossing (window reference memory), stream.Monitor in another domain and BusSynchronizer (widths 1..16, ratio-bounded R=1..3, two timeouts) run under random per-domain edge probabilities; every synchroniser first flop sampled in the instant its input changes resolves each changing bit to old or new. Accepted and delivered token lists must be equal (a subsequence across resets), the bus synchroniser may only output words its input held, and must reflect a stable input.",
+         "trusted: simulator, fault model in lib/bench/faults.py (metastability only at declared synchronisers), BFMs", "4 C05"),
 }
 
 def main():
